@@ -41,10 +41,12 @@ func runC07(t *testing.T, c ConcCase) *kit.Result {
 	cfg := c.Sched.Config()
 	cfg.Verbose = kit.Verbose
 	cfg.MaxVirtual = 0 // set below through the watchdog
+	cfg.SpinLimit = 400_000
 	kit.RaceLogDelta()
 	var sim *simrt.Sim
 	calls := 0
 	stuck := ""
+	var current []atomic.Pointer[string]
 	out := simrt.Run(t, cfg, func() {
 		sim = simrt.S
 		fs := kit.NewFS()
@@ -62,7 +64,7 @@ func runC07(t *testing.T, c ConcCase) *kit.Result {
 		// shared between the clients and the watchdog: real atomics, so that the
 		// harness itself is race-free in ThreadSanitizer's eyes
 		counts := make([]atomic.Int64, len(c.Clients))
-		current := make([]atomic.Pointer[string], len(c.Clients))
+		current = make([]atomic.Pointer[string], len(c.Clients))
 		var done atomic.Bool
 		for ci, ops := range c.Clients {
 			ci, ops := ci, ops
@@ -70,7 +72,20 @@ func runC07(t *testing.T, c ConcCase) *kit.Result {
 			simrt.GoNamed(fmt.Sprintf("client%d", ci), func() {
 				defer wg.Done()
 				rr := kit.NewRand(c.PSeed + uint64(ci)*101)
+				// what calls returned belongs to the caller: it is looked at again
+				// later (a monitoring loop formats the statistics it fetched, a reader
+				// keeps the value it got), while other calls are in progress
+				var kept []any
+				look := func() {
+					for _, x := range kept {
+						_ = fmt.Sprint(x)
+					}
+					if len(kept) > 4 {
+						kept = kept[len(kept)-4:]
+					}
+				}
 				for oi, op := range ops {
+					look()
 					opName := op
 					current[ci].Store(&opName)
 					k := key(rr.Intn(c.NKeys))
@@ -79,7 +94,9 @@ func runC07(t *testing.T, c ConcCase) *kit.Result {
 					case "put":
 						e.Put(k, val)
 					case "get":
-						e.Get(k)
+						if v, err := e.Get(k); err == nil {
+							kept = append(kept, v)
+						}
 					case "del":
 						e.Delete(k)
 					case "isdel":
@@ -142,9 +159,11 @@ func runC07(t *testing.T, c ConcCase) *kit.Result {
 					case "crange":
 						e.CompactRange(key(0), k)
 					case "stats":
-						e.GetStats()
+						kept = append(kept, e.GetStats())
 					case "cstats":
-						e.GetCompactionStats()
+						if st, err := e.GetCompactionStats(); err == nil {
+							kept = append(kept, st)
+						}
 					case "sleep":
 						simrt.Sleep(time.Duration(rr.Range(1, 1500)) * time.Millisecond)
 					}
@@ -185,6 +204,15 @@ func runC07(t *testing.T, c ConcCase) *kit.Result {
 		}
 		e.Close()
 	})
+	if out.Livelock && out.Panic == "" {
+		var b strings.Builder
+		for ci := range current {
+			if op := current[ci].Load(); op != nil {
+				fmt.Fprintf(&b, "client %d is inside %s; ", ci, *op)
+			}
+		}
+		res.V = &kit.Violation{Kind: "call-never-returns", Signature: "call-never-returns:" + firstStuckOp(b.String()) + ":spinning", Detail: b.String() + "\n" + out.Detail}
+	}
 	res.Absorb(out)
 	if sim != nil && kit.Verbose {
 		res.Trace = sim.TraceLines()
@@ -240,7 +268,7 @@ func TestC07(t *testing.T) {
 		ID: "C07",
 		Gen: func(r *kit.Rand, tier string) ConcCase {
 			c := ConcCase{Sched: kit.GenSched(r, kit.PickOf(r, "conc", "conc", "dense")), Knobs: kit.GenKnobs(r), NKeys: r.Range(2, 10), PSeed: r.Uint64()}
-			c.Knobs.DiskUs = kit.PickOf(r, 0, 0, 100, 1000) // calls take virtual time: they overlap with timers and each other
+			c.Knobs.DiskUs = kit.PickOf(r, 0, 100, 1000, 5000) // calls take virtual time: they overlap with timers and each other
 			c.Sched.MaxVirtS = 24 * 3600
 			c.Knobs.MemTableSize = kit.PickOf(r, int64(256), 512, 1024, 4096, 65536)
 			c.Knobs.CompactionInterval = kit.PickOf(r, int64(1), 1, 2)
@@ -282,6 +310,6 @@ func TestC07(t *testing.T) {
 			return out
 		},
 		Strip: func(c ConcCase) any { d := c; d.Sched = kit.Sched{}; return d },
-		Rule:  "2-6 client tasks, each 2-16 calls drawn from {Put, Get, Delete, IsDeleted, full scan, range scan + Seek, ApplyBatch, read-write transaction (get/put/iterator/commit or rollback), read-only transaction (get/range iterator), FlushImMemTables, TriggerCompaction, CompactRange, GetStats, GetCompactionStats, registry begin/get/put/commit/remove by handle (read-only and read-write), pause} on 2-10 keys, memtables of 256B-64KB, compaction every 1-2 s, conc/dense seeded scheduling, optional stalls; binary built with -race; a run is a violation if ThreadSanitizer reports a race (signature = innermost kevo function of each of the two stacks), a task panics, the simulator finds nothing runnable with calls outstanding, or no call completes for 120 unstalled virtual seconds. non-trivial = >=2 clients and >=4 completed calls",
+		Rule:  "2-6 client tasks, each 2-16 calls drawn from {Put, Get, Delete, IsDeleted, full scan, range scan + Seek, ApplyBatch, read-write transaction (get/put/iterator/commit or rollback), read-only transaction (get/range iterator), FlushImMemTables, TriggerCompaction, CompactRange, GetStats, GetCompactionStats, registry begin/get/put/commit/remove by handle (read-only and read-write), pause} on 2-10 keys, memtables of 256B-64KB, compaction every 1-2 s, conc/dense seeded scheduling, optional stalls; binary built with -race; a run is a violation if ThreadSanitizer reports a race (signature = innermost kevo function of each of the two stacks), a task panics, the simulator finds nothing runnable with calls outstanding, no call completes for 120 unstalled virtual seconds, or 400000 scheduling steps are taken in a row without the virtual clock moving (a call that spins). What Get, GetStats and GetCompactionStats returned is kept by the client and looked at again (formatted) before each of its next calls, so that a result which kevo goes on writing to is a reported race. non-trivial = >=2 clients and >=4 completed calls",
 	})
 }
